@@ -180,16 +180,7 @@ Definition stuckb (s : state) : bool :=
   (holders s =? 0) && (at_pc PUsend s =? 0) && negb (s_ch s) &&
   (at_pc PLload s =? 0) && (at_pc PLswap s =? 0) && (0 <? at_pc PLrecv s).
 
-(* ---- bounded exhaustive exploration (used for Examples and for validating invariants) ---- *)
+(* the threads that can take a step *)
 Definition enabled (s : state) : list nat :=
   filter (fun i => match step s i with Some _ => true | None => false end)
          (seq 0 (length (s_thr s))).
-
-(* all states reachable within [fuel] steps satisfy P (checked by depth-first enumeration) *)
-Fixpoint all_within (P : state -> bool) (fuel : nat) (s : state) : bool :=
-  P s &&
-  match fuel with
-  | O => true
-  | S f => forallb (fun i => match step s i with Some s' => all_within P f s' | None => true end)
-                   (seq 0 (length (s_thr s)))
-  end.
